@@ -145,8 +145,8 @@ theorem transitdirect_parity (x1 x2 r1 r2 : ℚ) (j1 j2 : ℤ)
 
 /-- `TestPoint` returns what `AddPoint` followed by `Compute` returns (same backend values), for every reachable or
     unreachable state with at least one vertex -/
-theorem testPoint_eq_add_compute (st : State) (A : ℚ) (lon : F64) (rv sg : Bool) (k1 k2 : ℚ × ℚ) (h : st.num ≠ 0) :
-    testPoint st A lon rv sg k1 k2 = compute (addPoint st lon k1.1 k1.2) A rv sg k2.1 k2.2 := by
+theorem testPoint_eq_add_compute (st : State) (A : ℚ) (lat lon : F64) (rv sg : Bool) (k1 k2 : ℚ × ℚ) (h : st.num ≠ 0) :
+    testPoint st A lon rv sg k1 k2 = compute (addPoint st lat lon k1.1 k1.2) A rv sg k2.1 k2.2 := by
   unfold testPoint compute addPoint
   simp only [h, if_false]
   by_cases hp : st.polyline
@@ -155,8 +155,8 @@ theorem testPoint_eq_add_compute (st : State) (A : ℚ) (lon : F64) (rv sg : Boo
   · have : ¬ (st.num + 1 < 2) := by omega
     simp [hp, this, add_assoc]
 
-theorem testEdge_eq_add_compute (st : State) (A s : ℚ) (lon2 : F64) (S12 : ℚ) (rv sg : Bool) (k2 : ℚ × ℚ) (h : st.num ≠ 0) :
-    testEdge st A s lon2 S12 rv sg k2 = compute (addEdge st s lon2 S12) A rv sg k2.1 k2.2 := by
+theorem testEdge_eq_add_compute (st : State) (A s : ℚ) (lat2 lon2 : F64) (S12 : ℚ) (rv sg : Bool) (k2 : ℚ × ℚ) (h : st.num ≠ 0) :
+    testEdge st A s lon2 S12 rv sg k2 = compute (addEdge st s lat2 lon2 S12) A rv sg k2.1 k2.2 := by
   unfold testEdge compute addEdge
   simp only [h, if_false]
   by_cases hp : st.polyline
@@ -373,13 +373,13 @@ abbrev Vertex := F64 × F64
 abbrev Backend := Vertex → Vertex → ℚ × ℚ
 
 def step (B : Backend) (sp : State × Vertex) (q : Vertex) : State × Vertex :=
-  (addPoint sp.1 q.2 (B sp.2 q).1 (B sp.2 q).2, q)
+  (addPoint sp.1 q.1 q.2 (B sp.2 q).1 (B sp.2 q).2, q)
 
 /-- `Clear(); AddPoint(v₀); …; AddPoint(vₙ₋₁); Compute(reverse, sign)` for a polygon (not polyline) -/
 def polygon (B : Backend) (A : ℚ) (rv sg : Bool) : List Vertex → Result
   | [] => compute (init false) A rv sg 0 0
   | v :: r =>
-    let sp := r.foldl (step B) (addPoint (init false) v.2 0 0, v)
+    let sp := r.foldl (step B) (addPoint (init false) v.1 v.2 0 0, v)
     compute sp.1 A rv sg (B sp.2 v).1 (B sp.2 v).2
 
 /-- sum of `f` over the consecutive pairs of the path `p, r₀, r₁, …` -/
@@ -439,13 +439,13 @@ theorem foldl_step (B : Backend) (r : List Vertex) (st : State) (p : Vertex) (hn
   induction r generalizing st p with
   | nil => simp [path, hp, hl, lastV]
   | cons q r ih =>
-    have hst : (step B (st, p) q) = (addPoint st q.2 (B p q).1 (B p q).2, q) := rfl
-    have ha : addPoint st q.2 (B p q).1 (B p q).2 =
+    have hst : (step B (st, p) q) = (addPoint st q.1 q.2 (B p q).1 (B p q).2, q) := rfl
+    have ha : addPoint st q.1 q.2 (B p q).1 (B p q).2 =
         { st with num := st.num + 1, perimsum := st.perimsum + (B p q).1, areasum := st.areasum + (B p q).2,
-                  crossings := st.crossings + transit p.2 q.2, lon1 := q.2 } := by
+                  crossings := st.crossings + transit p.2 q.2, lat1 := q.1, lon1 := q.2 } := by
       unfold addPoint; simp [hn, hp, hl]
     simp only [List.foldl_cons, hst]
-    obtain ⟨h1, h2, h3, h4, h5, h6, h7, h8⟩ := ih (addPoint st q.2 (B p q).1 (B p q).2) q (by rw [ha]; simp) (by rw [ha]; exact hp)
+    obtain ⟨h1, h2, h3, h4, h5, h6, h7, h8⟩ := ih (addPoint st q.1 q.2 (B p q).1 (B p q).2) q (by rw [ha]; simp) (by rw [ha]; exact hp)
       (by rw [ha])
     refine ⟨?_, ?_, ?_, ?_, ?_, ?_, h7, ?_⟩
     · rw [h1, ha]; simp; omega
@@ -469,10 +469,10 @@ theorem polygon_eq (B : Backend) (A : ℚ) (rv sg : Bool) (vs : List Vertex) (h 
       ⟨vs.length, some (cyc (fs B) vs), some (some (areaReduce (cyc (fS B) vs) A (cyc fT vs) rv sg))⟩ := by
   match vs, h with
   | v :: r, h =>
-    have h0 : addPoint (init false) v.2 0 0 = { (init false) with num := 1, lon0 := v.2, lon1 := v.2 } := by
+    have h0 : addPoint (init false) v.1 v.2 0 0 = { (init false) with num := 1, lat0 := v.1, lon0 := v.2, lat1 := v.1, lon1 := v.2 } := by
       simp [addPoint, init]
-    obtain ⟨h1, h2, h3, h4, h5, h6, h7, h8⟩ := foldl_step B r (addPoint (init false) v.2 0 0) v (by rw [h0]; simp) (by rw [h0]; rfl) (by rw [h0])
-    have hlen : ¬ ((r.foldl (step B) (addPoint (init false) v.2 0 0, v)).1.num < 2) := by
+    obtain ⟨h1, h2, h3, h4, h5, h6, h7, h8⟩ := foldl_step B r (addPoint (init false) v.1 v.2 0 0) v (by rw [h0]; simp) (by rw [h0]; rfl) (by rw [h0])
+    have hlen : ¬ ((r.foldl (step B) (addPoint (init false) v.1 v.2 0 0, v)).1.num < 2) := by
       rw [h1, h0]; simp at h ⊢; omega
     simp only [polygon, compute, hlen, if_false, h7, Bool.false_eq_true]
     rw [h1, h2, h3, h4, h5, h6, h8, h0]
